@@ -23,19 +23,21 @@ boundary) which are C06 / C03 / C13 and enter here as the assumption that a succ
 namespace Conduit.Ctl
 
 /-- C16.stale_plan_refused — "applied only if the plan still matches the current state": a
-presented plan that is not the plan computed now is refused, nothing is touched, no lifecycle
+presented plan (the view the hash digests: every change with its resource, id, action, effect,
+*config paths* and live-swappability, and the desired config) that is not the one computed now
+is refused, nothing is touched, no lifecycle
 call is made. Full strength. -/
-theorem C16_stale_plan_refused (v : Variant) (c : PipeCfg) (presented : List Act) (allow : Bool) (env : LiveEnv)
-    (s : St) (old : Option PipeCfg) (hex : exportPl v s.mem c.id = .ok old) (hst : presented ≠ build v 1 old c) :
+theorem C16_stale_plan_refused (v : Variant) (c : PipeCfg) (presented : PlanView) (allow : Bool) (env : LiveEnv)
+    (s : St) (old : Option PipeCfg) (hex : exportPl v s.mem c.id = .ok old) (hst : presented ≠ planView v old c) :
     applyPlanLive v c presented allow env s = (.error .stale, s, []) := by
   unfold applyPlanLive
   simp [hex, hst]
 
 /-- contrapositive: whenever the apply succeeded, changed anything or called the lifecycle, the
 presented plan was the current one. -/
-theorem C16_applies_only_current_plan (v : Variant) (c : PipeCfg) (presented : List Act) (allow : Bool) (env : LiveEnv)
+theorem C16_applies_only_current_plan (v : Variant) (c : PipeCfg) (presented : PlanView) (allow : Bool) (env : LiveEnv)
     (s : St) (old : Option PipeCfg) (hex : exportPl v s.mem c.id = .ok old)
-    (h : applyPlanLive v c presented allow env s ≠ (.error .stale, s, [])) : presented = build v 1 old c := by
+    (h : applyPlanLive v c presented allow env s ≠ (.error .stale, s, [])) : presented = planView v old c := by
   apply Classical.byContradiction
   intro hne
   exact h (C16_stale_plan_refused v c presented allow env s old hex hne)
@@ -81,7 +83,7 @@ import / start event happens. Full strength: every state, configuration, lifecyc
 theorem C16_running_needs_authorisation (v : Variant) (c : PipeCfg) (env : LiveEnv) (s : St) (old : Option PipeCfg)
     (hex : exportPl v s.mem c.id = .ok old) (hrun : runningNow (flipState c env s) c.id = true)
     (hne : build v 1 old c ≠ []) :
-    applyPlanLive v c (build v 1 old c) false env s = (.error .unauth, flipState c env s, []) := by
+    applyPlanLive v c (planView v old c) false env s = (.error .unauth, flipState c env s, []) := by
   unfold applyPlanLive
   have : (build v 1 old c).isEmpty = false := by
     cases h : build v 1 old c with
@@ -94,10 +96,10 @@ in the window) ⇒ refused; the only difference to the pre-state is the external
 theorem C16_running_needs_authorisation_toctou (v : Variant) (c : PipeCfg) (env : LiveEnv) (s : St) (old : Option PipeCfg)
     (p : Pl) (hex : exportPl v s.mem c.id = .ok old) (hp : s.mem.pls c.id = some p)
     (hrun : (isRunningStatus p.status || env.becomesRunning) = true) (hne : build v 1 old c ≠ []) :
-    (applyPlanLive v c (build v 1 old c) false env s).1 = .error .unauth ∧
-    (applyPlanLive v c (build v 1 old c) false env s).2.2 = [] ∧
-    ((applyPlanLive v c (build v 1 old c) false env s).2.1 = s ∨
-     (env.becomesRunning = true ∧ (applyPlanLive v c (build v 1 old c) false env s).2.1 = setStatusRaw c.id 1 s)) := by
+    (applyPlanLive v c (planView v old c) false env s).1 = .error .unauth ∧
+    (applyPlanLive v c (planView v old c) false env s).2.2 = [] ∧
+    ((applyPlanLive v c (planView v old c) false env s).2.1 = s ∨
+     (env.becomesRunning = true ∧ (applyPlanLive v c (planView v old c) false env s).2.1 = setStatusRaw c.id 1 s)) := by
   rw [C16_running_needs_authorisation v c env s old hex (by rw [runningAtGate c env s p hp]; exact hrun) hne]
   refine ⟨rfl, rfl, ?_⟩
   rcases flipState_cases c env s with h | ⟨_, hb, h⟩
@@ -112,7 +114,7 @@ after the status-read window). -/
 theorem C16_drain_before_mutate (v : Variant) (c : PipeCfg) (env : LiveEnv) (s : St) (old : Option PipeCfg)
     (hex : exportPl v s.mem c.id = .ok old) (hrun : runningNow (flipState c env s) c.id = true)
     (hne : build v 1 old c ≠ []) (hnl : liveEligible (build v 1 old c) = false) :
-    let r := applyPlanLive v c (build v 1 old c) true env s
+    let r := applyPlanLive v c (planView v old c) true env s
     r.2.2.head? = some .stop ∧
     (env.stopOk = false → r = (.error .life, flipState c env s, [.stop])) ∧
     (Ev.commit ∈ r.2.2 → env.stopOk = true) := by
@@ -141,7 +143,7 @@ the new configuration was committed and only the restart failed. -/
 theorem C16_failed_apply_consistent_restart (v : Variant) (c : PipeCfg) (env : LiveEnv) (s : St) (old : Option PipeCfg)
     (hex : exportPl v s.mem c.id = .ok old) (hrun : runningNow (flipState c env s) c.id = true)
     (hne : build v 1 old c ≠ []) (hnl : liveEligible (build v 1 old c) = false) :
-    let r := applyPlanLive v c (build v 1 old c) true env s
+    let r := applyPlanLive v c (planView v old c) true env s
     r.1 ≠ .ok () →
       r.2.1 = flipState c env s ∨ r.2.1.kv = (setStatusRaw c.id 3 (flipState c env s)).kv ∨
       (Ev.commit ∈ r.2.2 ∧ env.startOk = false) := by
@@ -171,7 +173,7 @@ authorisation — refused, only the external flip is visible, no event. -/
 example :
     let v := Variant.repaired
     let s := after v st0 cfgB
-    let plan := match exportPl v s.mem 1 with | .ok old => build v 1 old cfgA | .error _ => []
+    let plan := match exportPl v s.mem 1 with | .ok old => planView v old cfgA | .error _ => ([], cfgA)
     let r := applyPlanLive v cfgA plan false { stopOk := true, startOk := true, reconf := [], becomesRunning := true } { s with ctr := 0 }
     r.1 = .error .unauth ∧ r.2.2 = [] ∧ (r.2.1.mem.pls 1).map (·.status) = some 1 ∧
       (r.2.1.mem.prs 16) = none := by
@@ -194,7 +196,7 @@ failed apply left neither "unchanged" nor "cleanly stopped". -/
 theorem C16_failed_apply_consistent_counterexample :
     let v := Variant.repaired
     let s := runningB v
-    let plan := match exportPl v s.mem 1 with | .ok old => build v 1 old cfgBLive | .error _ => []
+    let plan := match exportPl v s.mem 1 with | .ok old => planView v old cfgBLive | .error _ => ([], cfgBLive)
     let r := applyPlanLive v cfgBLive plan true { stopOk := false, startOk := true, reconf := [1] } { s with ctr := 0 }
     r.1 = .error .life ∧ r.2.2 = [.commit, .reconf 12, .stop] ∧
     (r.2.1.kv.pls 1).map (·.status) = some 1 ∧ (r.2.1.kv.prs 12).map (·.settings) = some 2 ∧
@@ -215,7 +217,7 @@ example :
 example :
     let v := Variant.repaired
     let s := runningB v
-    let plan := match exportPl v s.mem 1 with | .ok old => build v 1 old cfgA | .error _ => []
+    let plan := match exportPl v s.mem 1 with | .ok old => planView v old cfgA | .error _ => ([], cfgA)
     (applyPlanLive v cfgA plan true { stopOk := true, startOk := true, reconf := [] } { s with ctr := 0 }).2.2
       = [.stop, .commit, .start] := by
   decide +kernel
